@@ -45,6 +45,39 @@ def _equiv_value(slot, t, conds):
     return False
 
 
+def _nnf(conds):
+    """push negations inwards (De Morgan) so that `not a and not b` being false reads as `a or b` being true"""
+    out = []
+
+    def neg(t):
+        if isinstance(t, tuple) and t and t[0] == 'not':
+            return t[1]
+        if isinstance(t, tuple) and t and t[0] == 'and':
+            return ('or',) + tuple(neg(x) for x in t[1:])
+        if isinstance(t, tuple) and t and t[0] == 'or':
+            return ('and',) + tuple(neg(x) for x in t[1:])
+        return ('not', t)
+
+    def pos(t, v):
+        if not v:
+            t, v = neg(t), True
+        # now t is asserted true
+        if isinstance(t, tuple) and t and t[0] == 'not':
+            inner = t[1]
+            if isinstance(inner, tuple) and inner and inner[0] in ('and', 'or', 'not'):
+                pos(neg(inner), True)
+            else:
+                out.append((inner, False))
+        elif isinstance(t, tuple) and t and t[0] == 'and':
+            for x in t[1:]:
+                pos(x, True)
+        else:
+            out.append((t, True))
+    for c, v in conds:
+        pos(c, v)
+    return out
+
+
 def check(ctx: Ctx) -> None:
     proj = ctx.proj
     ctx.rule('C06.R1', 'categorize_amount: every path assigns exactly one key of the zero-initialised result; the leaves cover all six keys', floor=6)
@@ -119,7 +152,7 @@ def check(ctx: Ctx) -> None:
     for p in np_:
         lits = dict()
         flat = []
-        for c, v in p.conds:
+        for c, v in _nnf(p.conds):
             if isinstance(c, tuple) and c[0] == 'or' and v is False:
                 flat += [(x, False) for x in c[1:]]
             elif isinstance(c, tuple) and c[0] == 'or' and v is True:
